@@ -89,7 +89,11 @@ def seeded():
     out.append("")
     extra = os.path.join(ROOT, "seeded", "NOTES.md")
     if os.path.exists(extra):
-        out += [open(extra).read().rstrip(), ""]
+        import re
+        txt = open(extra).read().rstrip()
+        # pipes inside code spans would split table cells
+        txt = re.sub(r"`[^`\n]*`", lambda m: m.group(0).replace("|", "\\|"), txt)
+        out += [txt, ""]
     return out
 
 
